@@ -112,7 +112,7 @@ theorem condFinder_sound (C : Nat → Bool) (rtl : Bool) (n : Nat) (attempt : Na
       exact hfail p h2 (hspec p ((mem_scanOrder false n pos p).mpr (by simp; omega)))
     · simp only [if_true, stopPos]
       refine ⟨Nat.zero_le _, by simp, ?_⟩
-      intro _ p h1
+      intro _ p _ h1
       exact hfail p (by omega) (hspec p ((mem_scanOrder true n pos p).mpr (by simp; omega)))
   | some q =>
     rw [hf] at hspec
